@@ -26,13 +26,33 @@ for d in sorted(os.listdir(ROOT)):
         summary = re.findall(r"^C\d\d \[\w+\].*$", txt, re.M)
         runs.append({"file": os.path.basename(p), "check": prop, "violation_lines": viol, "classes": classes[:8], "summary": summary[-1] if summary else ""})
     if runs:
-        last = runs[-1]
-        caught = any(r["violation_lines"] > 0 for r in runs)
+        # per check: the plain file is the run against the check as it stood, the *_after_strengthening
+        # file the run against the strengthened check
+        per = {}
+        for r in runs:
+            st = per.setdefault(r["check"], {"before": None, "after": None})
+            k = "after" if "after_strengthening" in r["file"] else "before"
+            if any(c.startswith("MACHINERY") for c in r["classes"]) or (r["violation_lines"] == 0 and not r["summary"]):
+                st[k] = "machinery error"
+            else:
+                st[k] = "caught" if r["violation_lines"] > 0 else "MISSED"
+        parts = []
+        for c, st in sorted(per.items()):
+            if st["before"] == "caught":
+                parts.append(f"{c}: caught")
+            elif st["after"] == "caught":
+                parts.append(f"{c}: {st['before'] or 'not run'} as built, caught after strengthening")
+            else:
+                parts.append(f"{c}: {st['before'] or st['after']}")
+        own = m.get("property")
+        caught_any = any(st["before"] == "caught" or st["after"] == "caught" for st in per.values())
         m["detection"] = {
-            "check": ", ".join(sorted(set(r["check"] for r in runs))),
-            "result": ("caught" if caught else "MISSED") + (" (after strengthening)" if caught and any(r["violation_lines"] == 0 for r in runs) else ""),
+            "check": ", ".join(sorted(per)),
+            "result": ("caught" if caught_any else "MISSED") + " (" + "; ".join(parts) + ")",
             "classes": "; ".join(sorted(set(c for r in runs for c in r["classes"])))[:300],
             "runs": runs,
         }
+    if m.get("masked_by") and "detection" in m:
+        m["detection"]["result"] = "masked: " + m["masked_by"]
     json.dump(m, open(mp, "w"), indent=1)
 subprocess.run(["python3", os.path.join(os.path.dirname(os.path.abspath(__file__)), "seed_index.py")])
